@@ -98,7 +98,7 @@ def r1(ctx):
 @rule("C10", "R2", "FLOW", "multi-series stacking is the row-wise concatenation of the individual stackings")
 def r2(ctx):
     from . import c07
-    ctx.sub(c07.r1)
+    ctx.sub(c07.r1, only=("per-series",), drop=("per-series:",))   # the stacker itself; what the front end hands to it is C07's
 
 
 @rule("C10", "R3", "TERM", "split by cumulative stacked lengths and padding with W-1 markers restore one list per series", floor=3)
